@@ -558,6 +558,12 @@ def run_c15(chk: Check) -> int:
               b"1-0:1.8.0" + b"(1*kWh)" * 1300, b"1.8.0(" * 1200, b"1.8.0" + b"()" * 1500, b"1.8.0(1)\r\n" * 1200, b"1.8.0(1*" + b"k" * 3000 + b")",
               b"1.8.0(" + b"9" * 5000 + b"*kWh)", b"1.8.0(1)" * 800, b"a(" * 700, b"1.0.0(999999999999)", b"1.0.0(21)", b"0-0:1.0.0(2101061607)"):
         items.append(("crafted", s))
+    # addresses made of long runs of one unit followed by something that cannot belong to an OBIS code (patterns a backtracking regex chokes on)
+    for unit in ("1", "1.", "1-", "1:", "1*", "12", "0.", ".", "-", "a", " ", "1.2.3.4.5.6", "1-0:"):
+        for n in (20, 28, 36, 44, 60, 200):
+            for tail in ("x", "", "!", ".", "x.1"):
+                items.append(("crafted-address", ((unit * n)[:n * 2] + tail + "(5)").encode()))
+                items.append(("crafted-address-in-block", ("1-0:1.8.0(1*kWh)\r\n" + (unit * n)[:n * 2] + tail + "(5*V)\r\n").encode()))
     # numeric literal forms Python's converters accept or nearly accept, under every unit class (exponents make big integers)
     lits = ["1E9", "1e99", "1E999", "1E9999", "1E99999", "010E999976", "1E9999999", "1E-999999", "9" * 400, "0." + "0" * 400 + "1", "1_000", " 1", "+1", "-1",
             "0x10", "1.", ".5", "Infinity", "-inf", "NaN", "1e", "e5", "1E+5", "١٢٣", "1,5", "--1", "1e-5", "00"]
